@@ -151,7 +151,6 @@ pub fn proc_locks_usable() -> bool {
 
 /// A spawned command whose output is collected in the background.
 pub struct Proc {
-    pub label: String,
     pub child: Child,
     pub pid: u32,
     out: Arc<Mutex<Vec<u8>>>,
@@ -173,7 +172,7 @@ fn drain<R: Read + Send + 'static>(mut r: R, into: Arc<Mutex<Vec<u8>>>) -> std::
 }
 
 impl Proc {
-    pub fn spawn(label: &str, bin: &Path, args: &[&str], cwd: &Path, env: &[(&str, &str)]) -> std::io::Result<Proc> {
+    pub fn spawn(_label: &str, bin: &Path, args: &[&str], cwd: &Path, env: &[(&str, &str)]) -> std::io::Result<Proc> {
         let mut c = Command::new(bin);
         c.args(args).current_dir(cwd).stdin(Stdio::null()).stdout(Stdio::piped()).stderr(Stdio::piped());
         for (k, v) in env {
@@ -187,7 +186,6 @@ impl Proc {
             drain(child.stderr.take().unwrap(), err.clone()),
         ];
         Ok(Proc {
-            label: label.to_string(),
             pid: child.id(),
             child,
             out,
